@@ -233,4 +233,46 @@ def rule_er3(ctx: Ctx) -> RuleResult:
     return r
 
 
-RULES = [rule_er1, rule_er2, rule_er3]
+def rule_er4(ctx: Ctx) -> RuleResult:
+    """ER-4: starmap is map over a wrapper that calls the user function exactly once with the unpacked item and returns its result;
+    the wrapper handles no exception itself, so that whatever the user function raises reaches map's guard unchanged (and exactly one
+    mux error is produced for the item, carrying that exception)."""
+    import ast as _ast
+    from .scan import _callable_def
+    r = RuleResult("ER-4", "starmap hands the unpacked item to the user function once, inside map's guard, and catches nothing itself")
+    rel = "rxsci/operators/starmap.py"
+    m, fn = ctx.function(rel, "starmap")
+    r.instances += 1
+    calls = [n for n in _ast.walk(fn) if isinstance(n, _ast.Call) and m.enclosing_function(n) is fn]
+    maps = []
+    for c in calls:
+        from ..loader import dotted_name
+        dn = dotted_name(c.func)
+        ref = ctx.program.resolve_dotted(m, dn) if dn else None
+        if ref is not None and ref[0] == "def" and ref[2].name == "map" and ref[1].relpath == "rxsci/operators/map.py":
+            maps.append(c)
+    if len(maps) != 1 or not maps[0].args:
+        r.ob(False, lambda: Finding("ER-4", "%s::starmap{map}" % rel, m.where(fn), "starmap must be rs.ops.map over one wrapper of the user function"))
+        return r
+    wfn = _callable_def(ctx, m, maps[0].args[0], fn)
+    if wfn is None:
+        raise AnalysisError("starmap: the function mapped over the items is not a local function or lambda")
+    A = ("arg", m.scopes[wfn].params[0])
+    for p in ctx.fn_paths(m, wfn):
+        r.paths += 1
+        if p.outcome == "raise" and not any(e.k == "except" for e in p.trace):
+            continue       # the user function raised: the exception leaves the wrapper, as it must
+        ucs = [e for e in p.trace if e.k == "ucall"]
+        handled = [e for e in p.trace if e.k == "except"]
+        ok = not handled and len(ucs) == 1 and tuple(ucs[0].args) == (("star", A),) and p.outcome == "return" and p.value == ucs[0].result
+        r.groups.add(("starmap", len(r.groups)))
+        r.ob(ok, lambda p=p, ucs=ucs, handled=handled: Finding(
+            "ER-4", "%s::starmap{wrapper}" % rel, m.where(wfn),
+            "the wrapper mapped by starmap must call mapper(*item) once and return its result, without handling exceptions itself; this path %s and "
+            "calls %s: an exception of the user function that is caught here never becomes the item's mux error" % (
+                "catches an exception" if handled else "catches nothing", [e.brief() for e in ucs]), trace_of(p)))
+    r.require_instances(1)
+    return r
+
+
+RULES = [rule_er1, rule_er2, rule_er3, rule_er4]
